@@ -251,7 +251,10 @@ def run(ctx):
     # while the slot is occupied)
     from . import routers
     for which in ("pubsub", "reqrep"):
-        routers.report(ctx, F, which, "C17", lambda f: f.kind == "K6")
+        ex, sd, cfg = routers.report(ctx, F, which, "C17", lambda f: f.kind == "K6")
+        ctx.floor("C17.D5.%s.persistent-states" % which, len(ex.persistent), 4 if which == "pubsub" else 8)
+        ctx.ok("C17.D5.explored", "%s router: %d reachable persistent states, %d (block,state) nodes searched for cycles that consume nothing (K6)"
+               % (which, len(ex.persistent), len(ex.it.nodes)), cfg.body.span)
     if ctx.tier == "thorough":
         FF = ctx.facts("allfeatures")
         d1(ctx, FF, "[all-features]")
